@@ -328,11 +328,11 @@ func (r *runner) step(o op) bool {
 		r.hist["zone:"+zone]++
 	}
 	if zone == "d36" {
-		// two signals of one layout grow with the enum: the outcome depends on Go map order
-		r.lines = append(r.lines, "O "+o.String(), "R ?")
-	} else {
-		r.lines = append(r.lines, "O "+o.String(), "R "+res)
+		// two signals of one layout grow with the enum: the outcome depends on Go map order; the driver
+		// compares it with the outcomes of the model over every visiting order
+		r.lines = append(r.lines, "Z d36")
 	}
+	r.lines = append(r.lines, "O "+o.String(), "R "+res)
 	if res == "panic" {
 		r.panicMsg = lastPanic
 		r.fails = append(r.fails, failure{"panic", fmt.Sprintf("%s panicked: %s", o, lastPanic)})
@@ -346,11 +346,7 @@ func (r *runner) step(o op) bool {
 	r.cur = pst
 	r.recs = append(r.recs, stepRec{o: o, res: res, sn: pst, resOK: zone != "d36", snapOK: zone != "d36"})
 	sizeChanged := ep.applies && res == "ok" && pst.enums[ep.e].size != pre.enums[ep.e].size
-	if zone == "d36" {
-		r.lines = append(r.lines, "S ?") // refs are visited in Go map order: positions not comparable
-	} else {
-		r.lines = append(r.lines, "S "+pst.text)
-	}
+	r.lines = append(r.lines, "S "+pst.text)
 
 	// ---- predicates -----------------------------------------------------------------------
 	c := &stepCtx{o: o, res: res, pre: pre, pst: pst, w: r.w, mem: r.mem, fixed: r.fixed,
